@@ -29,6 +29,7 @@ pub struct FrameRec {
     pub act: String,
     pub flips: usize,
     pub iters: usize,
+    pub ok: bool,
 }
 
 pub type Script = Arc<dyn Fn(usize, u64) -> Act + Send + Sync>;
@@ -140,22 +141,22 @@ impl LdpcDecoder for ScriptedDecoder {
             }
             Act::Invert => (hard.iter().map(|b| b ^ 1).collect(), false, 1, "invert", self.shared.k),
             Act::Panic => {
-                self.rec(seq, llrs, &hard, "panic", 0, 0);
+                self.rec(seq, llrs, &hard, "panic", 0, 0, false);
                 panic!("scripted decoder panic (worker {}, frame {})", self.id, seq);
             }
         };
-        self.rec(seq, llrs, &hard, name, flips, iters);
+        self.rec(seq, llrs, &hard, name, flips, iters, ok);
         let out = DecoderOutput { codeword: word, iterations: iters };
         if ok { Ok(out) } else { Err(out) }
     }
 }
 
 impl ScriptedDecoder {
-    fn rec(&self, seq: u64, llrs: &[f64], hard: &[u8], act: &str, flips: usize, iters: usize) {
+    fn rec(&self, seq: u64, llrs: &[f64], hard: &[u8], act: &str, flips: usize, iters: usize, ok: bool) {
         let mut f = self.shared.frames.lock().unwrap();
         if f.len() < self.shared.keep_frames || act == "panic" {
             f.push(FrameRec { worker: self.id, seq, len: llrs.len(), zero_pos: (0..llrs.len()).filter(|&i| llrs[i] == 0.0).collect(),
-                hard: hard.to_vec(), act: act.to_string(), flips, iters });
+                hard: hard.to_vec(), act: act.to_string(), flips, iters, ok });
         }
     }
 }
